@@ -30,10 +30,11 @@ import (
 const twigPath = "github.com/semihalev/twig"
 
 var (
-	fset    = token.NewFileSet()
-	info    *types.Info
-	watched = map[string]bool{}
-	stats   = map[string]int{}
+	fset     = token.NewFileSet()
+	info     *types.Info
+	watched  = map[string]bool{}
+	stats    = map[string]int{}
+	shimDirs = map[string]string{}
 )
 
 func main() {
@@ -65,6 +66,8 @@ func main() {
 			for _, t := range f[1:] {
 				watched[t] = true
 			}
+		case "shim": // shim <virtual package> <directory under shim/>
+			shimDirs[f[1]] = f[2]
 		case "addfile":
 			addFiles = append(addFiles, f[1])
 		}
@@ -165,7 +168,11 @@ func main() {
 	}
 	// virtual shim packages inside the twig module
 	for _, pkg := range []string{"vsync", "vmap", "vtime"} {
-		fs, _ := filepath.Glob(filepath.Join(*shim, pkg, "*.go"))
+		dir := pkg
+		if d, ok := shimDirs[pkg]; ok {
+			dir = d
+		}
+		fs, _ := filepath.Glob(filepath.Join(*shim, dir, "*.go"))
 		for _, f := range fs {
 			overlay[filepath.Join(*repo, pkg, filepath.Base(f))] = f
 		}
